@@ -74,6 +74,8 @@ class Emitter:
         self._layout_cache = {}
         self.global_values = None
         self.scopes = []
+        self.wordbits = getattr(tu, "wordbits", 64)     # BigInt::word_t of the configuration this AST was dumped for
+        self.cfg_flags = list(getattr(tu, "cfg_flags", []))
 
     def canon(self, ts):
         return self.tu.canon(ts, self.scopes)
@@ -314,7 +316,7 @@ class Emitter:
         p = os.path.join(self.wd, "constdump.cpp")
         open(p, "w").write(src)
         exe = os.path.join(self.wd, "constdump")
-        r = subprocess.run(["clang++"] + clang_flags() + ["-O0", "-w", p, "-o", exe], capture_output=True, text=True)
+        r = subprocess.run(["clang++"] + clang_flags() + self.cfg_flags + ["-O0", "-w", p, "-o", exe], capture_output=True, text=True)
         if r.returncode != 0:
             raise ExtractionError("constant dumper does not compile:\n" + r.stderr[-3000:])
         out = subprocess.run([exe], capture_output=True, text=True, check=True).stdout
@@ -459,10 +461,10 @@ class Emitter:
         rec = self.tu.records.get(b)
         if rec is not None and rec.is_union and name in BIGINT_VIEWS:
             acc = "(%s)->words" % base if arrow else "(%s).words" % base
-            if name == "words":
+            if name == "words" and self.wordbits == 64:
                 return acc
             self.rules["union-view:" + name] += 1
-            et = {"dwords": "jpv_u128", "bytes": "uint8_t", "std_words": "uint32_t", "std_dwords": "uint64_t"}[name]
+            et = {"dwords": "jpv_u128" if self.wordbits == 64 else "uint64_t", "words": "uint32_t", "bytes": "uint8_t", "std_words": "uint32_t", "std_dwords": "uint64_t"}[name]
             return "((%s *)%s)" % (et, acc)
         return "(%s)%s%s" % (base, "->" if arrow else ".", name)
 
@@ -666,7 +668,7 @@ class Emitter:
             if not inner:
                 return "{{0}}"
             vals = self._int_list(inner[0])
-            esz = {"std_words": 4, "std_dwords": 8, "dwords": 16, "words": 8, "bytes": 1}[fld]
+            esz = {"std_words": 4, "std_dwords": 8, "dwords": 2 * self.wordbits // 8, "words": self.wordbits // 8, "bytes": 1}[fld]
             sz = self.record_layout(r)[0]
             raw = b"".join(int(v).to_bytes(esz, "little") for v in vals).ljust(sz, b"\0")
             return "{{" + ", ".join("0x%xULL" % int.from_bytes(raw[8 * i:8 * i + 8], "little") for i in range(sz // 8)) + "}}"
